@@ -71,6 +71,9 @@ pub struct RunCfg {
     /// the client does not trust the server's CA: the TLS handshake fails with an alert
     #[serde(default)]
     pub untrusted_ca: bool,
+    /// max_datagram_frame_size advertised by (client, server) when not the default 1200 / 1200
+    #[serde(default)]
+    pub dgram_max: Option<(u32, u32)>,
 }
 
 #[derive(Debug, Clone, Copy, PartialEq, Eq, Serialize, Deserialize)]
@@ -88,7 +91,7 @@ pub struct CloseEvent {
 
 impl RunCfg {
     pub fn new(workload: Workload) -> RunCfg {
-        RunCfg { workload, tiny_windows: false, idle_timeout_ms: 20_000, idle_timeout_server_ms: None, max_segments: 4, qlog: QlogMode::None, horizon_s: 120, close: None, untrusted_ca: false }
+        RunCfg { workload, tiny_windows: false, idle_timeout_ms: 20_000, idle_timeout_server_ms: None, max_segments: 4, qlog: QlogMode::None, horizon_s: 120, close: None, untrusted_ca: false, dgram_max: None }
     }
 }
 
@@ -173,6 +176,9 @@ fn qlogger(mode: QlogMode, sink: &Arc<Captured>) -> Option<Arc<dyn QLog + Send +
 fn client_params(cfg: &RunCfg) -> ClientParameters {
     let mut p = client_parameters();
     tune(&mut p, cfg);
+    if let Some((c, _)) = cfg.dgram_max {
+        p.set(ParameterId::MaxDatagramFrameSize, c).expect("dgram");
+    }
     p
 }
 
@@ -181,6 +187,9 @@ fn server_params(cfg: &RunCfg) -> ServerParameters {
     tune(&mut p, cfg);
     if let Some(ms) = cfg.idle_timeout_server_ms {
         p.set(ParameterId::MaxIdleTimeout, Duration::from_millis(ms)).expect("idle");
+    }
+    if let Some((_, s)) = cfg.dgram_max {
+        p.set(ParameterId::MaxDatagramFrameSize, s).expect("dgram");
     }
     p
 }
